@@ -183,6 +183,26 @@ impl TxProposal {
             .unwrap_or(Coin::zero()));
     }
 
+    /// Gives the last output exactly what the other outputs and the fee leave over,
+    /// so that inputs = outputs + fee. Fails if that is less than the output's minimum ada.
+    pub(crate) fn balance_last_output(&mut self) -> Result<(), JsError> {
+        let outputs_ada = self.get_total_ada_for_ouputs()?;
+        let total_ada = self.total_ada.clone();
+        let fee = self.fee.clone();
+        if let Some(output) = self.tx_output_proposals.last_mut() {
+            let other_outputs_ada = outputs_ada.checked_sub(&output.get_total_ada())?;
+            let rest = total_ada
+                .checked_sub(&other_outputs_ada)
+                .and_then(|ada| ada.checked_sub(&fee))
+                .map_err(|_| JsError::from_str("Not enough funds"))?;
+            if rest < output.get_min_ada() {
+                return Err(JsError::from_str("Not enough funds"));
+            }
+            output.set_total_ada(&rest);
+        }
+        Ok(())
+    }
+
     pub(crate) fn add_last_ada_to_last_output(&mut self) -> Result<(), JsError> {
         let unused_ada = self.get_unused_ada()?;
         if let Some(output) = self.tx_output_proposals.last_mut() {
